@@ -254,7 +254,11 @@ def _cold(case, classes=("cold_start",)):
             try:
                 mine = _alone_watched(j["kind"], j["text"].replace("{v}", "10000").replace("{w}", "20000"), j.get("flags", {}))
             except sched.Stalled as e:
-                raise HarnessError("a serial call in the checking process waits for ever (inside %s): left over from an earlier case" % e.where)
+                # this process made concurrent calls in earlier cases; a call made alone now waits for ever
+                fail = Fail("call_alone_waits_for_ever_after_concurrent_calls@%s" % e.where, job=case["jobs"][k],
+                            note="left over from the concurrent calls of an earlier case in this process")
+                fail.poisons_process = True
+                break
             mine = ["exc", mine[1]] if mine[0] == "exc" else ["ok", _json.loads(_json.dumps(mine[1]))]
             if "{v}" in j["text"] or "{w}" in j["text"]:
                 mine = _json.loads(_json.dumps(mine).replace("10000", "V").replace("20000", "W"))
